@@ -15,7 +15,7 @@ import tracemalloc
 import zlib as _zlib
 
 from hvsim import bases
-from hvsim.core import BudgetExceeded, RunResult, Violation, metered, rng_for, set_stream_align
+from hvsim.core import HarnessError, BudgetExceeded, RunResult, Violation, metered, rng_for, set_stream_align
 from hvsim.simfs import SimFile, monitored
 from hvsim.world import World
 
@@ -123,6 +123,10 @@ def _is_gate(fld, how, val, cur) -> bool:
     mechanism list; signatures the readers do not validate by design - VHD cookie, VMDK(fh) on an unknown magic,
     inactive header copies, AEAD footer magic - are not gates)"""
     n = fld.name
+    if n == "sesparse.hdr.magic":
+        # a 64-bit constant: the dispatch on its low half decides *which* parser gets the file (not a gate, see above), the
+        # SE-sparse parser itself owes the check of the high half
+        return how == "xor" and val >= (1 << 32)
     if fld.kind == "magic":
         return n in GATE_MAGICS
     if fld.kind == "version":
@@ -280,8 +284,12 @@ def crafted(spec: dict) -> list:
     if t == "stub" and spec["fmt"] == "vmdk" and spec["cfg"]["kind"] == "stream":
         for ratio in (64, 1024):
             c.append(["vmdk_inflate_bomb", ratio])
-    if t == "stub" and spec["fmt"] == "qcow2" and spec["cfg"].get("compress"):
+        for container in ("raw", "gzip"):  # a stream in another deflate framing than the format uses (a lenient fallback may accept it)
+            c.append(["vmdk_inflate_bomb", [1024, container]])
+    if t == "stub" and spec["fmt"] == "qcow2" and not spec["cfg"].get("data_file"):
         c.append(["qcow2_inflate_bomb", 1000])
+        for container in ("zlib", "gzip"):
+            c.append(["qcow2_inflate_bomb", [1000, container]])
     if t == "stub" and spec["fmt"] == "qcow2":
         c.append(["qcow2_l1_to_l1", 0])
     return c
@@ -497,28 +505,17 @@ def _f_hyperv_active_sig(world, b, spec, _):
 
 
 def _f_vhdx_parent_is_self(world, b, spec, _):
-    # the child's relative_path names the child itself: patch the UTF-16 string in place (same length)
-    top = sorted(p for p in world.fs.files if p.endswith(".avhdx"))[-1]
-    f = world.fs.files[top]
-    raw = f.pread(0, min(f.length, 8 << 20))
-    needle = "relative_path".encode("utf-16-le")
-    i = raw.find(needle)
-    if i < 0:
-        return
-    name = top.rsplit("/", 1)[1]
-    # value strings follow the key strings; overwrite every occurrence of the parent's file name
-    import re
+    """The file the top image names as its parent holds the top image itself: its parent locator, resolved from where it now
+    lies, names that same file again - a parent chain without end."""
+    def idx(p):
+        n = p.rsplit("/", 1)[1]
+        return 0 if n == "base.vhdx" else int(n.split(" ")[1].split(".")[0])
 
-    for m in re.finditer("(base\\.vhdx|child \\d\\.avhdx)".encode("utf-16-le").replace(b"\\\x00", b"\\"), raw):
-        pass
-    for cand in ("base.vhdx",) + tuple("child %d.avhdx" % k for k in range(1, 7)):
-        enc = cand.encode("utf-16-le")
-        j = raw.find(enc, i)
-        if j >= 0 and cand != name:
-            new = name.encode("utf-16-le")[: len(enc)].ljust(len(enc), b"\0")
-            _set_bytes(f, j, new)
-            if len(name) <= len(cand):
-                break
+    imgs = sorted((p for p in world.fs.files if p.endswith((".avhdx", ".vhdx"))), key=idx)
+    if len(imgs) < 2:
+        return "skip"
+    top, parent = imgs[-1], imgs[-2]
+    world.fs.add(parent, world.fs.files[top])
 
 
 def _f_vmdk_parent_is_self(world, b, spec, _):
@@ -533,6 +530,11 @@ def _f_vmdk_parent_is_self(world, b, spec, _):
         _set_bytes(f, j, name[: k - j].ljust(k - j, b" ") if len(name) > k - j else name + b"\"" + b" " * (k - j - len(name)))
 
 
+def _deflate(data: bytes, container: str, wbits: int = 15) -> bytes:
+    co = _zlib.compressobj(9, _zlib.DEFLATED, {"raw": -wbits, "zlib": wbits, "gzip": 16 + wbits}[container])
+    return co.compress(data) + co.flush()
+
+
 def _f_vmdk_inflate_bomb(world, b, spec, ratio):
     import struct
 
@@ -541,30 +543,52 @@ def _f_vmdk_inflate_bomb(world, b, spec, ratio):
     for path, fld in b.fields:
         if fld.name == "vmdk.grain0.cmp_size":
             grain_bytes = spec["cfg"]["grain"] * 512
-            bomb = _zlib.compress(bytes(grain_bytes * ratio), 9)
+            ratio, container = ratio if isinstance(ratio, list) else (ratio, "zlib")
+            bomb = _deflate(bytes(grain_bytes * ratio), container)
             gsec = (fld.off - 8) // 512
             # the bomb replaces grain 0's record; it may spill over following records, which is fine for this fault
             f.write(gsec * 512, struct.pack("<QI", 0, len(bomb)) + bomb)
             return
 
 
+def _world_state(world, b):
+    return (tuple(sorted((p, f.content_hash(), len(f._ov)) for p, f in world.fs.files.items())), tuple(sorted(world.fs.faults.items())),
+            getattr(b, "open_kwargs_drop_backing", False), id(b.open))
+
+
 def _f_qcow2_inflate_bomb(world, b, spec, ratio):
+    """The first mapped L2 entry of the active table becomes a compressed-cluster descriptor whose deflate stream expands to
+    `ratio` clusters; the stream is appended to the image file. The workload gets a request covering exactly that cluster."""
+    import re
+
     p = b.paths[0]
     f = world.fs.files[p]
-    cs = 1 << spec["cfg"]["cluster_bits"]
-    co = _zlib.compressobj(9, _zlib.DEFLATED, -12)
-    bomb = co.compress(bytes(cs * ratio)) + co.flush()
-    # overwrite the first compressed cluster's bytes: find its descriptor in the field map's L2 entries
+    cfg = spec["cfg"]
+    if cfg.get("data_file"):
+        return "skip"  # compressed clusters and an external data file exclude each other
+    cb = cfg["cluster_bits"]
+    cs = 1 << cb
+    ratio, container = ratio if isinstance(ratio, list) else (ratio, "raw")
+    bomb = _deflate(bytes(cs * ratio), container, 12)
+    cands = []
     for path, fld in b.fields:
-        if fld.name.startswith("qcow2.l2_") and not fld.name.endswith("bitmap"):
-            v = int.from_bytes(f.pread(fld.off, 8), "big")
-            if v & (1 << 62):
-                x = 62 - (spec["cfg"]["cluster_bits"] - 8)
-                coff = v & ((1 << x) - 1)
-                f.write(coff, bomb[: 2 * cs])
-                nsec = min((1 << (spec["cfg"]["cluster_bits"] - 8)) - 1, (len(bomb) + 511) // 512)
-                _set_bytes(f, fld.off, ((1 << 62) | (nsec << x) | coff).to_bytes(8, "big"))
-                return
+        m = re.match(r"qcow2\.l2_0_(\d+)\[(\d+)\]$", fld.name)
+        if m and path == p:
+            cands.append((int(m.group(1)), int(m.group(2)), fld))
+    if not cands:
+        return "skip"
+    t, i, fld = min(cands, key=lambda c: (c[0], c[1]))
+    x = 62 - (cb - 8)
+    coff = (f.length + 511) & ~511
+    f.write(coff, bomb[: 2 * cs])
+    nsec = min((1 << (cb - 8)) - 1, (min(len(bomb), 2 * cs) + 511) // 512)
+    _set_bytes(f, fld.off, ((1 << 62) | (nsec << x) | coff).to_bytes(8, "big"))
+    if cfg.get("extl2"):
+        _set_bytes(f, fld.off + 8, bytes(8))
+    per_table = cs // (16 if cfg.get("extl2") else 8)
+    guest = (t * per_table + i) * cs
+    b.extra_reqs = [[guest, cs], [guest + cs - 512, 512], [guest, 512]]
+    b.request_bytes += 2 * cs
 
 
 def _f_qcow2_l1_to_l1(world, b, spec, _):
@@ -838,8 +862,12 @@ def run_case(case: dict) -> RunResult:
             r = None
             if fault[0] in ("crafted", "gate"):
                 fn = globals()["_f_" + fault[1]]
+                st0 = _world_state(world, b)
                 r = fn(world, b, spec, fault[2])
-                world.faults_fired[fault[1]] += 1
+                if r != "skip" and _world_state(world, b) == st0:
+                    # a crafted input that left the world as it was tests nothing: never count it as a fired fault
+                    raise HarnessError(f"crafted fault {fault[1:3]} had no effect on base {spec.get('fmt') or spec.get('name') or spec['type']}")
+                world.faults_fired[fault[1]] += 0 if r == "skip" else 1
             else:
                 apply_fault(world, b, spec, fault, "pre")
             if r == "skip":
